@@ -172,7 +172,8 @@ func (f *fetcher) fetchUpstream(req *http.Request, key cache.CacheKey, clientHd 
 		return fetchResult{}, err
 	}
 
-	cached, err := f.handleUpstreamResponse(req, resp, key, clientHd, false)
+	// retry_on_range_416 decides whether a 416 is retried without the Range header or relayed as it is.
+	cached, err := f.handleUpstreamResponse(req, resp, key, clientHd, !f.cfg.Proxy.RetryOnRange416.Read())
 	if err != nil {
 		resp.Body.Close()
 		slog.Error("Error handling upstream response after cache miss", "url", req.URL, "error", err)
